@@ -90,7 +90,7 @@ CHECKS = {
              "order, and TLC validates per step: no executor call while building, exactly one call on value_async, on "
              "the root dataset's executor (or the override), with RemoveEmptyMD(view) and the title, and that the "
              "caller gets exactly the value / exception of its own call."
-             " Every other history awaits its answered-at-once calls one after the other inside one long-lived coroutine (one context), the others through the synchronous value().",
+             " Every other history awaits its answered-at-once calls one after the other inside one long-lived coroutine (one context), the others through the synchronous value(). Focus cross: the query of a second dataset embedded as a lambda body in a chain on the first (a dataset node off the source chain) - executions still go to the root of the source chain.",
         ref="DESIGN.md 6 (C12), 3.10",
         technique="TLC model checking over all schedules + deterministic asyncio replay of TLC's schedules + TLC trace "
                   "validation of executor log and deliveries"),
@@ -137,7 +137,7 @@ CHECKS = {
              "parameters positional in declaration order, no keyword left, ValueError iff a required parameter is "
              "missing, stream operators inside lambdas keep exactly the user's arguments. TypeFollow's binding is itself "
              "cross-checked against inspect.Signature.bind on every case."
-             " Signatures include keyword-only parameters (given by keyword, emitted at their position).",
+             " Signatures include keyword-only parameters (given by keyword, emitted at their position). Component spec/Registry.tla: the process-wide function / collection-class registries and reset as a state machine (design check with a deviation switch, exported histories replayed, TraceRegistry).",
         ref="DESIGN.md 6 (C07)",
         technique="TLC-enumerated signatures x call shapes x placements rendered to real classes; TLC trace validation "
                   "of the emitted call against the specification's Python binding (cross-checked with inspect)"),
@@ -224,7 +224,7 @@ CHECKS = {
              "TLC enumerates layouts, the harness renders real modules and runs them against the real operators through "
              "a recording proxy, and TLC (TraceSource) decides per call: a recovered lambda is structurally the lambda "
              "passed at that call (WrongLambda is never allowed), and supported layouts are recovered without error."
-             " Wrap defline: the enclosing function is a one-line def with the statement on its line.",
+             " Wrap defline: the enclosing function is a one-line def with the statement on its line; decoration cline: a comment-only line between the parenthesis and the lambda (exhaustive small family).",
         ref="DESIGN.md 6 (C03), A.3",
         technique="TLC-enumerated source layouts rendered to real Python modules; TLC trace validation of recovered "
                   "lambda = passed lambda and Supported => recovered",
